@@ -986,3 +986,14 @@ Theorem C02_extract_k_saturates : forall (g : its) (j : nat), wf g ->
   extract_k g (S (length (node_ids g)) + j) = extract_k g (S (length (node_ids g))).
 Proof. exact extract_k_saturates. Qed.
 Print Assumptions C02_extract_k_saturates.
+
+Theorem C02_saturated_is_component : forall (A B : Type) (g : lgraph A B) (seeds : list N), wf g ->
+  (forall s, In s seeds -> In s (node_ids g)) ->
+  forall n, In n (knn_g g seeds (S (length (node_ids g)))) <-> exists s m, In s seeds /\ walk_g g s n m.
+Proof. exact (@saturated_is_component_walk). Qed.
+Print Assumptions C02_saturated_is_component.
+
+Theorem C02_extract_k_S_saturates : forall (g : sits) (j : nat), wf g ->
+  extract_k_S g (S (length (node_ids g)) + j) = extract_k_S g (S (length (node_ids g))).
+Proof. exact extract_k_S_saturates. Qed.
+Print Assumptions C02_extract_k_S_saturates.
